@@ -83,7 +83,19 @@ func genStoCase(seed int64, idx int) *stoCase {
 	if rng.Intn(4) == 0 {
 		c.Ops = append(c.Ops, stoOp{Op: "readfile-early"})
 	}
+	// readers handed out before Finalize (an HTTP response still being written) are consumed after
+	// it, and after another file of the same factory has been filled
+	hold := nParts > 0 && rng.Intn(2) == 0
+	if hold {
+		c.Ops = append(c.Ops, stoOp{Op: "hold"})
+	}
 	c.Ops = append(c.Ops, stoOp{Op: "finalize"})
+	if hold {
+		if rng.Intn(4) != 0 {
+			c.Ops = append(c.Ops, stoOp{Op: "churn", N: 1 + rng.Intn(4)})
+		}
+		c.Ops = append(c.Ops, stoOp{Op: "usehold"})
+	}
 	c.Ops = append(c.Ops, stoOp{Op: "size"})
 	for i := 0; i < 1+rng.Intn(3); i++ {
 		c.Ops = append(c.Ops, stoOp{Op: "readfile", Buf: bufs[rng.Intn(len(bufs))]})
@@ -169,7 +181,7 @@ func runStoCase(c *stoCase) *stoResult {
 		r    io.ReadCloser
 		want []byte
 	}
-	var open []openR
+	var open, held []openR
 	fpath := filepath.Join(dir, "seg.mp4")
 	sig := ""
 	for oi, op := range c.Ops {
@@ -285,6 +297,87 @@ func runStoCase(c *stoCase) *stoResult {
 				b.f.Finalize()
 			}
 			finalized = true
+		case "hold":
+			for _, b := range bes {
+				for pi, p := range b.ps {
+					r, err := p.Reader()
+					if err != nil {
+						fail("part-reader", "op %d: %s part %d Reader: %v", oi, b.name, pi, err)
+						continue
+					}
+					n := 0
+					if len(model[pi]) > 0 {
+						n = rng.Intn(len(model[pi]) + 1)
+					}
+					head := make([]byte, n)
+					if _, err := io.ReadFull(r, head); err != nil || !bytes.Equal(head, model[pi][:n]) {
+						fail("part-bytes/"+b.name+"/finalized=false", "op %d: %s part %d: first %d bytes differ from the model (err %v)", oi, b.name, pi, n, err)
+					}
+					held = append(held, openR{b.name, fmt.Sprintf("part %d", pi), r, append([]byte{}, model[pi][n:]...)})
+				}
+			}
+			res.obs["readers_held_across_finalize"] += len(held)
+		case "churn":
+			// another file of the same factories: parts of about the same sizes, filled and finalized
+			var sizes []int
+			for i := 0; i < op.N; i++ {
+				sz := rng.Intn(400)
+				if len(model) > 0 && rng.Intn(2) == 0 {
+					sz = len(model[rng.Intn(len(model))])
+				}
+				sizes = append(sizes, sz)
+			}
+			datas := make([][]byte, len(sizes))
+			for i, sz := range sizes {
+				datas[i] = make([]byte, sz)
+				rng.Read(datas[i])
+			}
+			for bi, b := range bes {
+				var f2 storage.File
+				var err error
+				if bi == 0 {
+					f2, err = storage.NewFactoryRAM().NewFile("churn.mp4")
+				} else {
+					f2, err = storage.NewFactoryDisk(dir).NewFile("churn.mp4")
+				}
+				if err != nil {
+					fail("harness", "churn NewFile: %v", err)
+					continue
+				}
+				var ps2 []storage.Part
+				for _, d := range datas {
+					p2 := f2.NewPart()
+					ps2 = append(ps2, p2)
+					if n, err := p2.Writer().Write(d); err != nil || n != len(d) {
+						fail("write", "op %d: %s Write returned (%d, %v) for %d bytes", oi, b.name, n, err, len(d))
+					}
+				}
+				f2.Finalize()
+				for i, p2 := range ps2 {
+					r, err := p2.Reader()
+					if err != nil {
+						fail("part-reader", "op %d: %s second file part %d Reader: %v", oi, b.name, i, err)
+						continue
+					}
+					got, _ := readAllBuf(r, 4096)
+					r.Close()
+					if !bytes.Equal(got, datas[i]) {
+						fail("part-bytes/"+b.name+"/finalized=true", "op %d: %s second file part %d returns %d bytes, written %d (first diff at %d)", oi, b.name, i, len(got), len(datas[i]), firstDiff(got, datas[i]))
+					}
+				}
+				f2.Remove()
+			}
+			res.obs["second_file_between"]++
+		case "usehold":
+			for _, o := range held {
+				got, err := readAllBuf(o.r, 1+rng.Intn(5000))
+				o.r.Close()
+				if err != nil || !bytes.Equal(got, o.want) {
+					fail("held-reader/"+o.be, "op %d: %s %s: a reader opened before Finalize and consumed after it returns %d bytes (err %v, first diff at %d), %d remained to be read", oi, o.be, o.what, len(got), err, firstDiff(got, o.want), len(o.want))
+				}
+				res.obs["held_reader_consumed_after_finalize"]++
+			}
+			held = nil
 		case "size":
 			total := 0
 			for _, m := range model {
